@@ -6,7 +6,7 @@ import (
 	"github.com/Azbesciak/RealDecisionMaker/lib/utils"
 )
 
-const maxCriteriaAfterAddition = 16
+const maxCriteriaAfterAddition = 20
 
 type ChoquetIntegralBiasListener struct {
 }
